@@ -196,6 +196,33 @@ Qed.
 Lemma self_type_okN : forall v, self_type v = true -> type_okN v = true.
 Proof. intros v H. unfold type_okN. rewrite H. reflexivity. Qed.
 
+(* the extended fragment contains the fragment of C14_json_roundtrip_partial, and there is no NoneType entry there:
+   C14_json_nonetype_exact specialises to the identity *)
+Lemma jfrag_jfragN : forall v, jfrag v = true -> jfragN v = true /\ has_nonetype v = false.
+Proof.
+  induction v using pv_ind'; intro Hj; try discriminate.
+  - destruct a; try discriminate; split; reflexivity.
+  - cbn [jfrag jfragN has_nonetype] in *. induction H as [|x r Hx Hr IH]; [split; reflexivity|].
+    cbn [forallb existsb] in *. apply andb_true_iff in Hj. destruct Hj as [J1 J2].
+    destruct (Hx J1) as [A1 A2]. destruct (IH J2) as [B1 B2]. rewrite A1, A2, B1, B2. split; reflexivity.
+  - cbn [jfrag jfragN has_nonetype] in *. apply andb_true_iff in Hj. destruct Hj as [Hj Hvals]. rewrite Hj. cbn [andb]. clear Hj.
+    destruct (has_key OLD_TYPE kvs && has_key NEW_TYPE kvs)%bool; cbn [andb].
+    + induction H as [|[a x] r Hx Hr IH]; [split; reflexivity|].
+      cbn [forallb existsb fst snd] in *. apply andb_true_iff in Hvals. destruct Hvals as [V1 V2].
+      destruct (IH V2) as [B1 B2]. rewrite B1, B2. destruct (is_type_key a).
+      * rewrite (self_type_okN x V1). destruct x; try discriminate V1. split; reflexivity.
+      * destruct (Hx V1) as [A1 A2]. rewrite A1, A2. split; reflexivity.
+    + induction H as [|[a x] r Hx Hr IH]; [split; reflexivity|].
+      cbn [forallb existsb fst snd] in *. apply andb_true_iff in Hvals. destruct Hvals as [V1 V2].
+      destruct (IH V2) as [B1 B2]. destruct (Hx V1) as [A1 A2]. rewrite A1, A2, B1, B2. split; reflexivity.
+Qed.
+
+Theorem json_ok_plain_okN : forall d, json_ok_plain d = true -> json_okN d = true /\ has_nonetype d = false.
+Proof.
+  intros d H. destruct d; try discriminate. cbn [json_ok_plain json_okN] in *. apply andb_true_iff in H. destruct H as [Hj Hk].
+  destruct (jfrag_jfragN _ Hj) as [A B]. rewrite A, Hk. split; [reflexivity | exact B].
+Qed.
+
 (* the witness of C14_json_nonetype_refuted is inside the extended fragment *)
 Example nonetype_payload_okN : json_okN nonetype_payload = true /\ has_nonetype nonetype_payload = true.
 Proof. split; vm_compute; reflexivity. Qed.
